@@ -118,6 +118,16 @@ def gen_metadata(rng, depth=0, allow_empty=False):
             md = json.loads(json.dumps(_LAST_MD[0]))    # the same again
         elif k == 2:
             md = {'revision': 1, 'ok': True, 'ratio': 2.0, 'n': 0}
+        elif k == 3 and rng.chance(0.2):
+            # deeply nested / long
+            inner = {'leaf': [1, 'x']}
+
+            for d in range(rng.choice([10, 40])):
+                inner = {'d%d' % d: inner, 'l': [inner]} if d % 7 == 0 \
+                    else {'d%d' % d: inner}
+
+            md = {'deep': inner, 'wide': {'k%03d' % i: i
+                                          for i in range(rng.choice([30, 300]))}}
 
         _LAST_MD[0] = md
         return md
@@ -227,6 +237,10 @@ def gen_history(rng, max_changes=3, max_files=3, pool=None, p_enc=0.4,
     """A well-ordered writer history.  Returns (main_encoding, ops)."""
     main = rng.choice(main_pool or (ENCS_COMMON if rng.chance(0.5)
                                     else ENCS))
+
+    if big and rng.chance(0.3):
+        max_files = 40          # many sections
+
     ops = []
     scope = [main]
 
